@@ -403,6 +403,59 @@ def _run_group(cmd, cwd, env, timeout):
     return r
 
 
+def enum_unit(unit, workdir, text, tier):
+    """bounded exhaustive enumeration: the extracted text + executable stand-ins compiled natively; every choice sequence is run"""
+    crate = os.path.join(workdir, 'crate')
+    os.makedirs(os.path.join(crate, 'src'), exist_ok=True)
+    with open(os.path.join(crate, 'Cargo.toml'), 'w') as f:
+        f.write('[package]\nname = "%s"\nversion = "0.0.0"\nedition = "2021"\n\n[[bin]]\nname = "enum"\npath = "src/main.rs"\n\n[workspace]\n\n[profile.release]\ndebug-assertions = true\noverflow-checks = true\n'
+                % unit.NAME.replace('_', '-'))
+    with open(os.path.join(crate, 'src', 'main.rs'), 'w') as f:
+        f.write(text)
+    harnesses = {}
+    for ln, line in enumerate(text.split('\n'), 1):
+        m = re.search(r'//\s*@EOBL\s+\[([^\]]*)\]\s*(.*)$', line)
+        if m:
+            fm = FN_RE.search(line)
+            harnesses[fm.group(1)] = dict(id='%s::%s' % (unit.NAME, fm.group(1)), props=[p.strip() for p in m.group(1).split(',') if p.strip()],
+                                          prose=m.group(2).replace('@BOUNDED', '').strip(), line=ln, kind='harness', bounded=True, harness=fm.group(1))
+    env = dict(os.environ, CARGO_NET_OFFLINE='true', CARGO_TARGET_DIR=os.path.join(workdir, 'target'))
+    t0 = time.time()
+    p = _run_group(['cargo', 'build', '--release', '--offline', '--quiet'], crate, env, 600)
+    if p is None or p.returncode != 0:
+        raise Undecided('enumeration unit %s does not compile: %s' % (unit.NAME, (p.stderr if p else 'timeout')[-800:]))
+    r = _run_group([os.path.join(workdir, 'target', 'release', 'enum')], crate, env, getattr(unit, 'TIMEOUT', 600))
+    if r is None:
+        raise Undecided('enumeration unit %s timed out' % unit.NAME)
+    wall = time.time() - t0
+    seen = {}
+    for line in r.stdout.split('\n'):
+        line = line.strip()
+        if line.startswith('{'):
+            try:
+                d = json.loads(line)
+                seen[d['harness']] = d
+            except ValueError:
+                pass
+    if set(seen) != set(harnesses):
+        raise Undecided('enumeration unit %s reported harnesses %s, declares %s: %s' % (unit.NAME, sorted(seen), sorted(harnesses), r.stderr[-400:]))
+    obls = []
+    for h, o in harnesses.items():
+        d = seen[h]
+        if d['runs'] < 2:
+            raise Undecided('harness %s explored %d choice sequences (vacuous)' % (h, d['runs']))
+        need = getattr(unit, 'COVER', {}).get(h, [])
+        if not d['failures'] and any(d.get('cover', [0] * 8)[i] == 0 for i in need):
+            raise Undecided('harness %s never reached cover point(s) %s (vacuous exploration): %s' % (h, need, d.get('cover')))
+        o = dict(o, status='failed' if d['failures'] else 'discharged', backend='exhaustive enumeration (native, bounded)', detail=[], runs=d['runs'])
+        if d['failures']:
+            o['detail'].append('%d of %d choice sequences fail; first failing choice sequence %s: %s' % (d['failures'], d['runs'], d['first_failing_choices'], d['message']))
+            o['counterexample_choices'] = d['first_failing_choices']
+        obls.append(o)
+    return dict(obligations=obls, solver_time_s=0.0, wall_s=round(wall, 2), cmd='(cd %s && cargo build --release --offline && ../target/release/enum)' % crate,
+                file=os.path.join(crate, 'src/main.rs'), crate=crate, runs={h: seen[h]['runs'] for h in seen})
+
+
 def _kani_failure_excerpt(out, h):
     idx = out.find('Checking harness')
     chunks = re.split(r'(?=Checking harness )', out)
@@ -487,6 +540,9 @@ def run_unit(name, tier, repo=None, cache=None, probes=True):
             base.update(r)
             if probes and getattr(unit, 'PROBES', True) and ctx.probe_fns:
                 base['probes'] = run_probes(unit, ctx, text, workdir)
+        elif unit.BACKEND == 'enum':
+            r = enum_unit(unit, workdir, text, tier)
+            base.update(r)
         else:
             r = kani_unit(unit, workdir, text, tier)
             base.update(r)
@@ -730,8 +786,13 @@ def check_property(prop, tier, registry, seed=0):
         replay = dict(property=prop, obligation=o['id'], prose=o['prose'], backend=o['backend'], unit=o['unit'],
                       verifier_output=o['detail'], counterexample=None, replayed_on_real_code=False, tier=tier)
         suffix = ' no-failing-input-found'
+        if o.get('counterexample_choices') is not None:
+            ur = [r for r in results if r['unit'] == o['unit']][0]
+            replay['counterexample'] = dict(scenario='enum', binary=os.path.join(os.path.dirname(ur['crate']), 'target', 'release', 'enum'), harness=o['harness'],
+                                            choices=o['counterexample_choices'], source='bounded exhaustive enumeration over the extracted function text with executable stand-ins (NOT the real crate)',
+                                            rerun='%s --replay %s %s' % (os.path.join(os.path.dirname(ur['crate']), 'target', 'release', 'enum'), o['harness'], ','.join(map(str, o['counterexample_choices']))))
         cx = spec.get('counterexample')
-        if cx:
+        if cx and o.get('counterexample_choices') is None:
             try:
                 got = cx(o, results, dict(repo=REPO, cache=CACHE, verif=VERIF))
                 if got:
